@@ -502,14 +502,16 @@ def c06(run, args):
     run.cov["distinct_nontrivial"] += len({json.dumps(x, sort_keys=True) for x in tour})
     run.cov["exhaustive"] = True
     limits = [1000, 5000, 100000] + ([] if quick else [10240000])
-    reps = 1 if quick else 4
+    reps = 1 if quick else 2
 
     def configs(i):
         out = []
         for li, lim in enumerate(limits):
-            if lim > 100000 and i % 40:
-                continue        # the default 10 MB limit: a sample only (bodies of 10-100 MB)
-            for r in range(reps):
+            if lim > 100000 and (i + run.seed) % 2000:
+                continue        # the default 10 MB limit: a handful only (bodies of 10-100 MB)
+            if lim == 100000 and not quick and (i + run.seed) % 20:
+                continue        # thorough walks ~23 000 dialogues: bodies of 0.1-1 MB for one in twenty (memory)
+            for r in range(reps if lim < 100000 else 1):
                 out.append(lambda rng, lim=lim: Concretiser(rng, naming="local", policy=POLICIES[0], max_rcpt=3, max_bytes=lim))
         return out
 
@@ -519,7 +521,7 @@ def c06(run, args):
     replay_and_validate(run, vh, beh, "c06", "C06 maximum message size")
     run.cov["rule"] = ("TLC walks every edge of the Smtp contract restricted to the size-relevant classes (MAIL with SIZE absent / within / = limit / above / unparsable; "
                        "DATA blocks small / 300-600 bytes under the limit / 300-600 bytes, 2x, 10x over it), each followed by a further small transaction on the same connection "
-                       "(the session stays usable); limits 1000, 5000, 100000 bytes (thorough also the default 10240000); concrete sizes drawn by seed, several repetitions per edge. "
+                       "(the session stays usable); limits 1000, 5000, 100000 bytes (thorough: 100000 for one dialogue in twenty, the default 10240000 for a handful); concrete sizes drawn by seed, two repetitions per edge in the thorough tier. "
                        "MAIL with SIZE > limit must be refused, an oversized DATA block must get a 4xx/5xx reply and store nothing, anything within the limit is accepted and stored")
     run.assumptions += ["sizes within +-300 bytes of the limit are not tested (the size may legitimately be counted with or without CRLF expansion)"]
 
